@@ -107,7 +107,7 @@ def step0 (st : St) (toks : List String) : St × String :=
            showCounts (Spec.counts st.s.facets st.t (Keyword.Spec.any kt ks) om))
     | _, _ => (st, "bad-op")
   | ["obs"] => (st, obs st)
-  | ["tags"] => (st, "tags " ++ tags st.s.ks)
+  | ["tags"] => (st, "tags " ++ tags st.s.ks ++ " ## tags-any")   -- the property leaves the representation free
   | ["repr", d] =>
     match d.toInt? with
     | some d =>
